@@ -154,10 +154,10 @@ PROPS = {
     'C14': {
         'technique': 'Verus contract on the extracted text of MelCepstrum::postfilter_mcp (b-domain, floats and mc2b/b2mc/b2en uninterpreted) and on Engine::generator; Kani harnesses for the no-op cases; native contract on Condition::set_beta',
         'level_text': 'unbounded proof (any order) of the b-domain update: b_k (k>=2) x (1+beta), b_1 - beta*alpha*b_2, b_0 + ln(e1/e2)/2, converted back with b2mc, and of the no-op cases; ring-identity lemma giving c_1 unchanged and c_k x (1+beta); Kani: no-op cases bit-identical for symbolic values; beta is clamped to [0,1] and reaches only Vocoder::new',
-        'level_note': 'PARTIAL: mc2b, b2mc and b2en (576-tap impulse-response energy) are uninterpreted: that b2en is the energy and that the energy is preserved within 1% are NOT decided; the c-domain statement holds in exact arithmetic (lemma over the integers)',
-        'verus': ['engine', 'postfilter'],
+        'level_note': 'PARTIAL: mc2b, b2mc and b2en are uninterpreted in unit postfilter; of the energy computation (b2mc -> freqt -> c2ir -> sum of squares) only freqt is under contract (unit freqt: the recursion consumes the coefficients from the highest order down, state update as in SPTK); c2ir and the 1% tolerance are NOT decided; the c-domain statement holds in exact arithmetic (lemma over the integers)',
+        'verus': ['engine', 'postfilter', 'freqt'],
         'assumptions': [], 'trusted_base': [],
-        'not_decided': ['impulse-response energy preserved within 1% (b2en numerics)', 'mc2b / b2mc are the linear maps c <-> b'],
+        'not_decided': ['impulse-response energy preserved within 1% (c2ir, truncation to 576 taps, rounding)', 'mc2b / b2mc are the linear maps c <-> b'],
     },
     'C16': {
         'technique': 'Kani frame harness on Condition::set_volume (exp stubbed as an uninterpreted function) + Verus contract on Engine::generator',
